@@ -123,6 +123,7 @@ type Explorer struct {
 	AssumeKills int64
 	initG      *globalsInit
 	traceEvery int64
+	seed       int64
 }
 
 func NewExplorer(prog *ssa.Program, entry *ssa.Function, harness string, params map[string]int64, workers int) *Explorer {
@@ -614,6 +615,15 @@ func (in *Interp) concreteString(v value, m *Model) string {
 			}
 		}
 		return fmt.Sprintf("%q", string(bs))
+	case int64:
+		return fmt.Sprintf("%d", s)
+	case bool:
+		return fmt.Sprintf("%v", s)
+	case *Term:
+		if s.w == 0 {
+			return fmt.Sprintf("%v", m.Eval(s) == 1)
+		}
+		return fmt.Sprintf("%d", sext(m.Eval(s), s.w))
 	}
 	return fmt.Sprintf("<%T>", v)
 }
